@@ -240,6 +240,64 @@ Definition legacy_step := step_gen legacy_handle_rows.
 Definition legacy_run := run_gen legacy_handle_rows.
 
 (* ---------------------------------------------------------------------------------------- *)
+(* the producer: the shuttermint observer (smobserver) working off a run of blocks.
+
+   What is modelled of SyncAppWithDB / handleBlock / shiftPhases / finalizeDKG / Save is only
+   what reaches the three tables the handler reads: a BatchConfig event inserts a keyper set, an
+   EonStarted event inserts an eon, and every key generation that finishes inserts - if it
+   succeeded - exactly one row (key, eon) into outgoing_eon_keys, before the observer's
+   transaction for that block commits; any number of key generations may finish in one block,
+   in any order (shiftPhases ranges over a map).  The key generation itself (puredkg, the phases,
+   the messages) is not modelled here: its outcome is an input. *)
+
+Record dkg_outcome := mkRes { r_eon : Z; r_success : bool; r_key : bytes }.
+
+(* finalizeDKG: dkg_result gets a row in either case, outgoing_eon_keys only on success *)
+Definition finalize_one (d : db) (r : dkg_outcome) : db :=
+  if r_success r then fst (insert_outgoing d (r_key r) (r_eon r)) else d.
+
+(* the key generations finishing in the blocks of one sync, in the order they are finalized *)
+Definition finalize_all (d : db) (rs : list dkg_outcome) : db := fold_left finalize_one rs d.
+
+(* one Sync of the observer: the keyper sets and eons the synced blocks announce, the key
+   generations that finish in them *)
+Definition sync_blocks (d : db) (new_cfgs : list cfg_row) (new_eons : list eon_row)
+           (rs : list dkg_outcome) : db :=
+  let d1 := fold_left (fun d c => fst (insert_cfg d (cr_kci c) (cr_keypers c))) new_cfgs d in
+  let d2 := fold_left (fun d e => fst (insert_eon d (er_eon e) (er_act e) (er_kci e))) new_eons d1 in
+  finalize_all d2 rs.
+
+(* the same as operations of a history *)
+Definition ops_of_sync (new_cfgs : list cfg_row) (new_eons : list eon_row) (rs : list dkg_outcome)
+  : list op :=
+  map (fun c => OpCfg (cr_kci c) (cr_keypers c)) new_cfgs ++
+  map (fun e => OpEon (er_eon e) (er_act e) (er_kci e)) new_eons ++
+  flat_map (fun r => if r_success r then [OpGen (r_key r) (r_eon r)] else []) rs.
+
+(* the successful key generations a list of outcomes records *)
+Definition successes (rs : list dkg_outcome) : list out_row :=
+  flat_map (fun r => if r_success r then [mkOut (r_key r) (r_eon r)] else []) rs.
+
+(* histories from the key generation on: syncs of the observer and polling ticks *)
+Inductive pop :=
+| PSync (new_cfgs : list cfg_row) (new_eons : list eon_row) (rs : list dkg_outcome)
+| PTick (enum : list out_row) (answers : list bool)
+| PTickFails.
+
+Definition ops_of_pop (p : pop) : list op :=
+  match p with
+  | PSync nc ne rs => ops_of_sync nc ne rs
+  | PTick enum answers => [OpTick enum answers]
+  | PTickFails => [OpTickFails]
+  end.
+
+Definition ops_of_pops (ps : list pop) : list op := flat_map ops_of_pop ps.
+
+(* every key generation the history records as successful (the dkg_result rows with success) *)
+Definition all_successes (ps : list pop) : list out_row :=
+  flat_map (fun p => match p with PSync _ _ rs => successes rs | _ => [] end) ps.
+
+(* ---------------------------------------------------------------------------------------- *)
 (* vocabulary of the property *)
 
 (* what a pending or recorded key must be published as, given the keyper's tables: the eon's
